@@ -79,6 +79,7 @@ def check(ctx):
     check_errors(ctx)
     check_single_child(ctx)
     check_patch_restricted(ctx)
+    check_deepest_first(ctx)
 
 
 def check_same_cache(ctx):
@@ -513,3 +514,82 @@ def check_patch_restricted(ctx):
     if n == 0:
         ctx.fail(rule, 'validate_marker_lookup', fi.loc(),
                  'the ancestor fallback never stores an augmented list')
+
+
+def check_deepest_first(ctx):
+    """validate_marker_lookup patches the lookup in place (it stores the
+    augmented list under the parent) and reads the lists of a parent's
+    ancestors while patching.  For a descendant to see its ancestors'
+    *original* lists -- "ancestors' lists, nearest first, until the minimum
+    is reached" -- descendants have to be processed before their
+    ancestors: the loop walks TaxonomyTree.all_parents (built root first,
+    level by level) in reverse."""
+    db = ctx.db
+    fi = db.fn('type_assignment.marker_cache_v2:validate_marker_lookup')
+    cfg = cfg_of(fi)
+    rd = rd_of(fi)
+    rule = 'R-PROV/deepest-first'
+    loops = []
+    for n_ in cfg.nodes:
+        if n_.kind == 'for' and n_.id in rd.live:
+            sl = backward_slice(fi, n_.ast.iter, n_.id)
+            if sl.has_attr('all_parents'):
+                loops.append(n_)
+    if not loops:
+        raise AnalysisError('validate_marker_lookup: the loop over '
+                            'all_parents was not found')
+    lp = loops[0]
+    body = lp.ast
+    stores = [s for s in ast.walk(body) if isinstance(s, ast.Assign)
+              and isinstance(s.targets[0], ast.Subscript)
+              and isinstance(s.targets[0].value, ast.Name)
+              and s.targets[0].value.id == 'marker_lookup'
+              and not isinstance(s.value, ast.List)]
+    reads_other = False
+    keyvars = {x.id for s in stores for x in ast.walk(s.targets[0].slice)
+               if isinstance(x, ast.Name)}
+    for e in ast.walk(body):
+        if isinstance(e, ast.Subscript) and isinstance(
+                e.ctx, ast.Load) and isinstance(e.value, ast.Name) \
+                and e.value.id == 'marker_lookup':
+            names = {x.id for x in ast.walk(e.slice)
+                     if isinstance(x, ast.Name)}
+            if names and not (names & keyvars):
+                reads_other = True
+    if not (stores and reads_other):
+        ctx.ok(rule, 'validate_marker_lookup:order', fi.loc(lp.ast),
+               'the patching does not read lists it may have patched '
+               'earlier: the order of the parents does not matter',
+               nontrivial=False)
+        return
+    it = lp.ast.iter
+    ok = False
+    how = ''
+    if isinstance(it, ast.Call) and isinstance(it.func, ast.Name) \
+            and it.func.id == 'reversed':
+        ok, how = True, 'reversed(...)'
+    elif isinstance(it, ast.Subscript) and isinstance(
+            it.slice, ast.Slice) and it.slice.step is not None \
+            and unparse(it.slice.step) == '-1':
+        ok, how = True, '[::-1]'
+    elif isinstance(it, ast.Name):
+        rev_nodes = {mn for (mn, astn, h) in rd.mutations(it.id)
+                     if h == 'reverse'}
+        defs = rd.reaching(it.id, lp.id)
+        ok = bool(defs) and bool(rev_nodes)
+        for d in defs:
+            okp, _p = cfg.must_pass(
+                d.node, {lp.id}, lambda x: x.id in rev_nodes,
+                edge_ok=lambda a, b, lab: lab != 'exc')
+            if not okp:
+                ok = False
+        # exactly one reversal (two cancel)
+        if ok and len(rev_nodes) != 1:
+            ok = False
+        how = '.reverse() before the loop'
+    ctx.ob(rule, 'validate_marker_lookup:order', fi.loc(lp.ast), ok,
+           f'parents are visited deepest first ({how})' if ok else
+           'the loop stores augmented lists into marker_lookup and reads '
+           "ancestors' lists from it, but visits all_parents root first: "
+           'a descendant is patched with lists that already contain '
+           "higher levels' markers, not with its ancestors' own lists")
